@@ -18,10 +18,11 @@ def story_parts(b):
     """part names in the documented order: headers (default, first if titlePg), body, footers"""
     d = A.read(b)
     return [s['part'] for s in d['stories']]
+CHAR_COMS = []      # per visible character (same order as visible_chars' list): ids of the comment ranges it lies in
 def visible_chars(b):
     """[(char, kind, chg_id)] in document order over all stories. kind: n / i / d / h (inside a comment range, unmarked).
     Includes text inside hyperlinks; excludes nothing."""
-    z = zipfile.ZipFile(io.BytesIO(b)); out = []; text_ids = set(); com_ids = set()
+    z = zipfile.ZipFile(io.BytesIO(b)); out = []; text_ids = set(); com_ids = set(); CHAR_COMS.clear()
     for part in story_parts(b):
         root = etree.fromstring(z.read(part))
         for p in root.iter(q('p')):
@@ -38,7 +39,7 @@ def visible_chars(b):
                     dele = next((a for a in anc[:pi] if a.tag == q('del')), None); ins = next((a for a in anc[:pi] if a.tag == q('ins')), None)
                     kind = 'd' if dele is not None else 'i' if ins is not None else 'h' if active else 'n'
                     s = (el.text or '') if el.tag in (q('t'), q('delText')) else ' ' if el.tag == q('tab') else '\n'
-                    for ch in s.replace('\t', ' '): out.append((ch, kind))
+                    for ch in s.replace('\t', ' '): out.append((ch, kind)); CHAR_COMS.append(frozenset(active))
                     if s:
                         if dele is not None: text_ids.add('Chg:' + (dele.get(q('id')) or ''))
                         if ins is not None: text_ids.add('Chg:' + (ins.get(q('id')) or ''))
@@ -47,24 +48,30 @@ def visible_chars(b):
 
 BLOCK = re.compile(r'\{--(.*?)--\}|\{\+\+(.*?)\+\+\}|\{==(.*?)==\}|\{>>(.*?)<<\}', re.S)
 DELIMS = re.compile(r'\{--|--\}|\{\+\+|\+\+\}|\{==|==\}|\{>>|<<\}')
+NEXT_META = []      # per character of parse_raw's list: index of the first metadata block after it (None: there is none)
 def parse_raw(s):
     """-> ([(char, kind)], metas, wellformed, accept_view_string)"""
     out = []; metas = []; pos = 0; acc = []
-    wf = True
+    wf = True; NEXT_META.clear(); pending = []
+    def mark(n):
+        for _ in range(n): pending.append(len(NEXT_META)); NEXT_META.append(None)
     for m in BLOCK.finditer(s):
         plain = s[pos:m.start()]; pos = m.end()
         if DELIMS.search(plain): wf = False
-        out += [(c, 'n') for c in plain]; acc.append(plain)
+        out += [(c, 'n') for c in plain]; acc.append(plain); mark(len(plain))
         d, i, h, c = m.groups()
         body = d if d is not None else i if i is not None else h if h is not None else c
         if c is None and DELIMS.search(body): wf = False
-        if d is not None: out += [(x, 'd') for x in d]
-        elif i is not None: out += [(x, 'i') for x in i]; acc.append(i)
-        elif h is not None: out += [(x, 'h') for x in h]; acc.append(h)
-        else: metas.append(c)
+        if d is not None: out += [(x, 'd') for x in d]; mark(len(d))
+        elif i is not None: out += [(x, 'i') for x in i]; acc.append(i); mark(len(i))
+        elif h is not None: out += [(x, 'h') for x in h]; acc.append(h); mark(len(h))
+        else:
+            metas.append(c)
+            for k in pending: NEXT_META[k] = len(metas) - 1
+            pending.clear()
     tail = s[pos:]
     if DELIMS.search(tail): wf = False
-    out += [(c, 'n') for c in tail]; acc.append(tail)
+    out += [(c, 'n') for c in tail]; acc.append(tail); mark(len(tail))
     return out, metas, wf, ''.join(acc)
 def squash(seq):
     """drop whitespace and the virtual characters of the projection (markers, heading marks, cell bars)"""
@@ -113,6 +120,16 @@ def oracle(d, b, raw, clean):
         extra -= replies
         if not miss and not extra: pass
         else: return 'identifiers listed %s, expected %s (missing %s, unexpected %s)' % (sorted(listed), sorted(want), sorted(miss), sorted(extra)), known
+    # locally: every character inside a comment range is followed by a metadata block that lists that comment
+    keep = lambda c: not c.isspace() and c not in '*_#|'
+    doc_pos = [i for i, (c, k) in enumerate(chars) if keep(c)]; raw_pos = [i for i, (c, k) in enumerate(got) if keep(c)]
+    for dp, rp in zip(doc_pos, raw_pos):
+        need = CHAR_COMS[dp]
+        if not need: continue
+        mi = NEXT_META[rp]
+        have = set(re.findall(r'\[Com:([^\]]*)\]', metas[mi])) if mi is not None else set()
+        if not need <= have:
+            return 'the character %r (visible position %d) lies in the range of comment(s) %s but the metadata that follows it lists %s' % (chars[dp][0], dp, sorted(need), sorted(have)), None
     cexp = squash([(c, 'n') for c, k in chars if k != 'd'])
     if DELIMS.search(clean): return 'accepted view contains annotations', None
     if squash([(c, 'n') for c in clean]) != cexp: return 'accepted view does not show exactly the non-deleted visible characters', ('D13' if 'hyperlink' in feats else None)
